@@ -96,6 +96,7 @@ type Op struct {
 	Cred    *Cred  `json:"cred,omitempty"`
 	SleepMs int    `json:"sleep_ms,omitempty"`
 	Dir2    uint32 `json:"dircount,omitempty"`
+	Guard   int    `json:"guard,omitempty"` // SETATTR sattrguard3: 1 = the object's current ctime (fetched first), 2 = another ctime
 }
 
 // SeqScn is a single-client sequential history.
@@ -109,6 +110,7 @@ type SeqScn struct {
 	ThinkM  int           `json:"think_ms"`       // client think time between operations
 	Diff    bool          `json:"diff,omitempty"` // C02: lock-step differential against a cache-less server
 	Faults  []simfs.Fault `json:"faults,omitempty"`
+	Direct  *HandleScn    `json:"direct,omitempty"` // C05/C06: direct concurrent drive of the handle table instead of a request history
 	Sched   SchedCfg      `json:"sched"`
 	Segment bool          `json:"segment,omitempty"`
 	UpdAt   int           `json:"upd_at,omitempty"` // runtime option update before this op index (0 = none)
@@ -280,7 +282,7 @@ func (r *seqRun) checkAttr(proc string, p string, a *nfsclient.Fattr3) {
 	if a.Type != wantType {
 		r.vio("C04.type-vs-backend", fmt.Sprintf("proc=%s,want=%d,got=%d", proc, wantType, a.Type), "%s reports type %d for %s, backend lstat says %d", proc, a.Type, p, wantType)
 	}
-	if n.Kind == simfs.KindFile && a.Size != uint64(n.Size) {
+	if (n.Kind == simfs.KindFile || n.Kind == simfs.KindSymlink) && a.Size != uint64(n.Size) {
 		r.vio("C04.size-vs-backend", "proc="+proc, "%s reports size %d for %s, backend lstat says %d", proc, a.Size, p, n.Size)
 	}
 	if n.Kind != simfs.KindSymlink && a.Mode&0o777 != uint32(n.Perm&0o777) {
@@ -810,12 +812,31 @@ func (r *seqRun) step(i int, op Op) {
 			}
 		}
 	case "SETATTR":
-		r0, _, err := cl.NFS(nfsclient.NFSProcSetattr, nfsclient.ArgsSetattr(hr.fh, op.SA.sattr(), nil))
+		var guard *nfsclient.NFSTime
+		switch op.Guard {
+		case 1:
+			if g, gerr := cl.Getattr(hr.fh); gerr == nil && g.Status == 0 && g.Attr != nil {
+				ct := g.Attr.Ctime
+				guard = &ct
+			}
+		case 2:
+			guard = &nfsclient.NFSTime{Sec: 1, Nsec: 1}
+		}
+		r0, _, err := cl.NFS(nfsclient.NFSProcSetattr, nfsclient.ArgsSetattr(hr.fh, op.SA.sattr(), guard))
 		if dead(err) || r0 == nil {
 			return
 		}
 		res := r0.(*nfsclient.SetattrRes)
 		e := expect{ok: base != nil}
+		if op.Guard == 2 {
+			// a guard that does not match must refuse the request and change nothing
+			e = expect{ok: false}
+			r.o.Checks++
+			if base != nil && base.kind == mFile && !r.readOnly && res.Status != nfsclient.NFS3ERR_NOT_SYNC {
+				r.vio("C01.guard-mismatch-not-refused", fmt.Sprintf("status=%d", res.Status), "%s: SETATTR with a sattrguard3 ctime that does not match got %s, want NFS3ERR_NOT_SYNC", name, nfsclient.NFSStatName(res.Status))
+				e = expect{either: true}
+			}
+		}
 		if base != nil && op.SA.Size != nil && base.kind != mFile {
 			e = expect{ok: false}
 		}
@@ -826,7 +847,7 @@ func (r *seqRun) step(i int, op Op) {
 			e = expect{ok: false}
 		}
 		tooBig := false
-		if base != nil && base.kind == mFile && op.SA.Size != nil && !r.readOnly {
+		if base != nil && base.kind == mFile && op.SA.Size != nil && !r.readOnly && op.Guard != 2 {
 			if *op.SA.Size > 1<<63-1 {
 				e = expect{ok: false}
 			} else if r.maxFile > 0 && *op.SA.Size > uint64(r.maxFile) && *op.SA.Size > base.file.size {
@@ -857,6 +878,8 @@ func (r *seqRun) step(i int, op Op) {
 					base.gid = *op.SA.GID
 				}
 			}
+		}
+		if res.Status == 0 {
 			r.checkAttr(op.Op, hr.path, res.Wcc.After)
 		}
 	case "CREATE":
